@@ -19,7 +19,7 @@ MANIFEST = dict(
          "C15_sync_* (same for the sequential loop), C15_every_job_exactly_once / C15_sync_every_job_exactly_once "
          "(termination included: no failing job, every node >= 1 job, max_concurrent >= 1 => for every oracle the "
          "loop ends by itself within |jobs|+1 iterations with every job launched exactly once and finished "
-         "successfully). C15_sync_every_job_exactly_once_any drops the at-least-one-job-per-node hypothesis for the sequential loop (zero-job nodes anywhere, bound 2(|jobs|+|nodes|)+3 passes); for the asynchronous loop the corresponding statement is refuted (C15_async_zero_chain_refuted: eleven consecutive empty nodes end the run Stalled with no failing job; on the real code the stall detector then crashes with a TypeError). The model is tied to the code on every run by a fake "
+         "successfully). C15_sync_every_job_exactly_once_any drops the at-least-one-job-per-node hypothesis for the sequential loop (zero-job nodes anywhere, bound 2(|jobs|+|nodes|)+3 passes); for the asynchronous loop the corresponding statement is refuted (C15_async_zero_chain_refuted: eleven consecutive empty nodes end the run Stalled with no failing job; on the real code the stall detector then crashes with a TypeError). C15_async_every_job_exactly_once_bounded_empty: the positive counterpart — fewer than ten empty nodes (empty_nodes g + 2 <= stall limit 11), no failing job, max_concurrent >= 1: for every oracle the asynchronous loop ends Finished within |jobs|+2 iterations with every job launched exactly once. The model is tied to the code on every run by a fake "
          "asynchronous Worker that dictates completion order / failures / lock-file visibility and by comparing, "
          "inside Coq, every poll (returned tasks and all six status sets of every node), every launch list, the "
          "whole start/finish log, the error names and the outputs with run_async/run_sync on the same oracle.",
